@@ -255,6 +255,9 @@ func (c *FnCtx) store(x *ssa.Store) {
 		return
 	}
 	c.checkWrite(pl, x.Pos())
+	if pl.Sort == SAny && pl.Kind == PElem {
+		c.wfSink(vt, x.Val.Name()+" stored in list", x.Pos())
+	}
 	c.storePlace(pl, vt)
 }
 
@@ -271,6 +274,13 @@ func (c *FnCtx) unop(x *ssa.UnOp) {
 		}
 		v := c.define(x, c.loadPlace(pl), pl.Sort)
 		c.valFacts(v.T, v.S, x.Type())
+		if pl.Kind == PGlobal && len(pl.Path) == 0 {
+			if ti := c.E.tables[pl.Name]; ti != nil {
+				v.Table = ti
+				v.GT = x.Type()
+				c.vals[x] = v
+			}
+		}
 	case token.NOT:
 		c.define(x, "(not "+c.v(x.X).T+")", SBool)
 	case token.SUB:
@@ -633,11 +643,15 @@ func (c *FnCtx) lookup(x *ssa.Lookup) {
 	val := c.freshConst("mv", vs)
 	c.fact(fmt.Sprintf("(= %s (ite %s (select (select %s %s) %s) %s))", val, ok, m, a.T, k.T, c.M.Zero(vs)))
 	c.valFacts(val, vs, mt.Elem())
+	var cands []Cand
+	if a.Table != nil {
+		cands = c.tableFacts(a.Table, ok, k.T, val, false)
+	}
 	if x.CommaOk {
-		c.bind(x, Val{S: "Tuple", Tup: []Val{{T: val, S: vs, GT: mt.Elem()}, {T: ok, S: SBool}}})
+		c.bind(x, Val{S: "Tuple", Tup: []Val{{T: val, S: vs, GT: mt.Elem(), Cands: cands}, {T: ok, S: SBool}}})
 		return
 	}
-	c.bind(x, Val{T: val, S: vs, GT: mt.Elem()})
+	c.bind(x, Val{T: val, S: vs, GT: mt.Elem(), Cands: cands})
 }
 
 func (c *FnCtx) mapUpdate(x *ssa.MapUpdate) {
@@ -650,6 +664,9 @@ func (c *FnCtx) mapUpdate(x *ssa.MapUpdate) {
 	vt := v.T
 	if vt == "" {
 		vt = c.freshConst("opaque", vs)
+	}
+	if vs == SAny {
+		c.wfSink(vt, x.Value.Name()+" stored in map", x.Pos())
 	}
 	c.checkWriteRow(mn, m.T, x.Pos())
 	c.setH(mn, fmt.Sprintf("(store %s %s (store (select %s %s) %s %s))", c.H(mn), m.T, c.H(mn), m.T, k.T, vt))
@@ -750,7 +767,17 @@ func (c *FnCtx) next(x *ssa.Next) {
 	c.fact(fmt.Sprintf("(= %s (ite %s (store %s %s true) %s))", so, ok, seen, k, seen))
 	l.SeenOut = so
 	_ = tup
-	c.bind(x, Val{S: "Tuple", Tup: []Val{{T: ok, S: SBool}, {T: k, S: ks, GT: mt.Key()}, {T: val, S: vs, GT: mt.Elem()}}})
+	var cands []Cand
+	if it.X.Table != nil {
+		cands = c.tableFacts(it.X.Table, ok, k, val, true)
+		if ti := it.X.Table; !ti.Open && ti.Frozen && !c.isInitLike() {
+			// every extracted row key is in the (frozen) table's domain
+			for _, r := range ti.Rows {
+				c.fact(fmt.Sprintf("(and (not (= %s 0)) (select (select %s %s) %s))", m, dh, m, c.strLit(r.Key)))
+			}
+		}
+	}
+	c.bind(x, Val{S: "Tuple", Tup: []Val{{T: ok, S: SBool}, {T: k, S: ks, GT: mt.Key()}, {T: val, S: vs, GT: mt.Elem(), Cands: cands}}})
 }
 
 func (c *FnCtx) runDefers() {
@@ -765,3 +792,10 @@ func (c *FnCtx) runDefers() {
 }
 
 var _ = strings.Join
+
+// wfSink: type invariant of any-trees — a map[string]any inside an interface value is never a
+// nil map. Assumed wherever a value is read out of a tree or received as a parameter (anywf),
+// obliged wherever a value is stored into a tree or passed to a function.
+func (c *FnCtx) wfSink(term, what string, pos token.Pos) {
+	c.oblige("nilbox", fmt.Sprintf("(=> ((_ is a_map) %s) (not (= (a_m %s) 0)))", term, term), what, pos)
+}
